@@ -50,3 +50,6 @@ def gen_nsf():
 GENERATORS = {
     "NsfTables": gen_nsf,
 }
+
+# properties whose checks need these generated files (a failure here only breaks those)
+SERVES = ['C07', 'C03', 'C04', 'C16', 'C17']
